@@ -615,6 +615,23 @@ def run(ctx):
         n = rng.randint(1, 6)
         x, ops, args = gen_t(rng, root, n)
         check_roundtrip(col, x, 'random', ({T: 'T', S: 'S', A: 'A'}[root], ops, args))
+    # A-rooted (assignment) paths take attribute / item / plain steps only; Path(A.., <T expression>) must refuse any other step
+    # exactly as the same expression written directly on A does - or at least never build an object whose repr is refused
+    for i in range(ctx.n(120, 1500)):
+        first = rng.choice([A, A.dest, A['dest'], Path(A, 'dest')])
+        seg, ops, _ = gen_t(rng, T, rng.randint(1, 3))
+        built = call(Path, first, seg) if rng.random() < 0.7 else call(Path, first, Path(seg), 'tail')
+        col.count('a_rooted_concatenations')
+        legal = all(o in '.[P' for o in ops)
+        col.case(('a-rooted-concat', legal, ops), True)
+        if built.ok:
+            if ops_of(built.value)[0] is not A:
+                col.violation('C18/path-root-differs-from-its-first-argument:A', 'Path(%s, %s) is rooted at %r' % (short(first), short(seg), ops_of(built.value)[0]), None)
+            else:
+                check_roundtrip(col, built.value, 'A-rooted concatenation', ('A', 'concat', ops))
+        elif legal:
+            col.violation('C18/a-rooted-concatenation-refused', 'Path(%s, %s) raised %r although every step is an attribute / item / plain step'
+                          % (short(first), short(seg), built.exc), None)
     for i in range(ctx.n(300, 5000)):
         root = rng.choice([T, T, T, S])
         n = rng.randint(0, 6)
